@@ -161,6 +161,18 @@ pub fn observe_union(ctx: &mut Ctx, u: &CpcUnion, model: &CpcUnionModel, what: &
         Err(e) => ctx.violation("CpcWrapper rejects the union result image", format!("{}: {}", what, e)),
     }
     if c > 0 {
+        // ICON by its definition (the n whose expected coupon count is C) vs the library's approximation of it
+        let want = crate::model::cpc::icon_reference(r.lg_k(), c);
+        let dev = r.estimate() / want - 1.0;
+        ctx.cover_max(&format!("icon_dev_lg_k_{:02}", r.lg_k()), dev.abs());
+        if dev.abs() > icon_tolerance(r.lg_k(), c) {
+            ctx.violation(
+                "merged estimate is not the ICON value of (lg_k, C)",
+                format!("{}: lg_k {} C {}: estimate {} but the n with E[C(n)] = C is {} (relative deviation {:+.2e})", what, r.lg_k(), c, r.estimate(), want, dev),
+            );
+        }
+    }
+    if c > 0 {
         let est = r.estimate();
         let lb = r.lower_bound(NumStdDev::One);
         let ub = r.upper_bound(NumStdDev::One);
@@ -224,9 +236,74 @@ fn union_case(ctx: &mut Ctx, case: &Json) {
     ctx.end_case(fp.get(), model.matrix.iter().any(|w| *w != 0));
 }
 
+/// Tolerance of the library's ICON approximation against the definition of the estimator (the n whose expected
+/// coupon count is C). The library uses a polynomial below C = 5.7 K and an exponential approximation above.
+/// Calibration on the repaired tree (lg_k 4..16, every C from 1 to the end of the envelope on a 4 % grid): the
+/// polynomial regime agrees to 2e-7, the exponential one to 9.3e-4 (worst right after the switch and at the very
+/// end of the envelope, C = 59 K).
+pub fn icon_tolerance(lg_k: u8, c: u64) -> f64 {
+    if (c as f64) < 5.6 * (1u64 << lg_k) as f64 {
+        2e-5
+    } else {
+        2e-3
+    }
+}
+
+/// ICON lane: one natural coupon order per lg_k; at ~250 coupon counts from 1 to the end of the envelope the sketch
+/// is put through a fresh union and the merged result's estimate is compared with the definition of ICON.
+fn icon_case(ctx: &mut Ctx, case: &Json) {
+    let lg_k = case.u64("lg_k").unwrap_or(8) as u8;
+    let mut rng = Rng::new(case.u64("seed").unwrap_or(0));
+    let c_max = m::max_coupons_in_envelope(lg_k).min(case.u64("c_max").unwrap_or(u64::MAX));
+    let order = m::natural_order(&mut rng, lg_k, c_max);
+    let mut s = CpcSketch::new(lg_k);
+    let mut next = 1u64;
+    let mut worst = 0.0f64;
+    let mut worst_ratio = 0.0f64;
+    let mut profile: Vec<Json> = vec![];
+    for (i, &rc) in order.iter().enumerate() {
+        s.verif_row_col_update(rc);
+        let c = (i + 1) as u64;
+        if c == next || c == c_max {
+            next = (next + 1).max(next * 26 / 25);
+            let mut u = CpcUnion::new(lg_k);
+            u.update(&s);
+            let r = u.to_sketch();
+            ctx.evals(1);
+            if r.num_coupons() as u64 != c {
+                ctx.violation("union num_coupons != popcount of the OR matrix", format!("icon lane lg_k {}: {} want {}", lg_k, r.num_coupons(), c));
+                break;
+            }
+            let want = m::icon_reference(lg_k, c);
+            let dev = r.estimate() / want - 1.0;
+            worst = worst.max(dev.abs());
+            worst_ratio = worst_ratio.max(dev.abs() / icon_tolerance(lg_k, c));
+            if profile.len() < 40 && (c == 1 || c * 8 / (1u64 << lg_k) != (c - 1) * 8 / (1u64 << lg_k) && profile.len() < 40 && c % 3 != 1) {
+                profile.push(Json::obj().set("lg_k", lg_k).set("c_over_k", c as f64 / (1u64 << lg_k) as f64).set("deviation", (dev * 1e7).round() / 1e7));
+            }
+            if dev.abs() > icon_tolerance(lg_k, c) {
+                ctx.violation(
+                    "merged estimate is not the ICON value of (lg_k, C)",
+                    format!("lg_k {} C {}: estimate {} but the n with E[C(n)] = C is {} (relative deviation {:+.2e}, tolerance {:.1e})", lg_k, c, r.estimate(), want, dev, icon_tolerance(lg_k, c)),
+                );
+                break;
+            }
+        }
+    }
+    ctx.note("list:icon_profile", Json::Arr(profile));
+    ctx.cover_max(&format!("icon_dev_lg_k_{:02}", lg_k), worst);
+    ctx.cover_max("icon_worst_deviation_over_tolerance", worst_ratio);
+    ctx.cover(&format!("icon_lane_lg_k_{:02}", lg_k));
+    let mut fp = Fp::new();
+    fp.u64(lg_k as u64);
+    fp.u64(c_max);
+    fp.u64(case.u64("seed").unwrap_or(0));
+    ctx.end_case(fp.get(), true);
+}
+
 pub fn run_case(ctx: &mut Ctx, case: &Json) {
     ctx.begin_case(case.clone());
-    let r = rt::guard(|| union_case(ctx, case));
+    let r = rt::guard(|| if case.str("lane") == Some("icon") { icon_case(ctx, case) } else { union_case(ctx, case) });
     if let Err(p) = r {
         ctx.panic_violation("CpcUnion", &p);
     }
@@ -244,6 +321,25 @@ pub fn run(ctx: &mut Ctx) {
                 .into(),
         ),
     );
+    // ICON lane: one lg_k per shard
+    {
+        let top = ctx.tier_pick(12u8, 16);
+        for lg_k in 4..=26u8 {
+            if (lg_k as usize) % ctx.nshards != ctx.shard {
+                continue;
+            }
+            // the whole envelope up to `top`; above, a prefix (the coefficients of the approximation are per lg_k)
+            let c_max = if lg_k <= top {
+                u64::MAX
+            } else if ctx.quick() {
+                if [15u8, 20, 26].contains(&lg_k) { 40_000 } else { continue }
+            } else {
+                400_000
+            };
+            let case = Json::obj().set("lane", "icon").set("lg_k", lg_k).set("c_max", c_max).set("seed", ctx.case_seed("icon", lg_k as u64));
+            run_case(ctx, &case);
+        }
+    }
     let n = ctx.tier_pick(600u64, 100_000);
     let mut rng = ctx.rng("cases");
     for i in 0..n {
